@@ -92,5 +92,28 @@ def register(w):
     w.contract(Z + "open", params={"selector": "str", "mode": "str", "errors": "opt[str]"}, modifies=MOD,
                requires=["mode == 'r' or mode == 'rb'"], raises={"OSError": True}, returns="either[obj:RFile,obj:TFile]", props=["C16", "C01"],
                note="binary mode (every handler reads archive members in binary mode except the text-mode title scan, which wraps the same stream)")
+    register_cache(w)
     w.contract(Z + "iswritable", params={"selector": "str"}, modifies=[], raises={}, returns="bool", ensures=["result == False"], props=P,
                note="nothing is ever written into an archive (so DirHandler never tries to cache a listing inside it)")
+
+
+def register_cache(w):
+    """C11 for the ZIP member cache: a damaged or half-written cache file must never make a request fail."""
+    HB = "pygopherd/handlers/base.py::"
+    CH = ["self.chain is not None", "self.chain.config is self.config", "G.rootpath is None or G.rootpath == '' or G.rootpath == %s" % ROOT, "S.abs_root(%s)" % ROOT,
+          "S.safe_sel(self.zipfilename)"]
+    w.fields("VFSZip", dircache="dict[str,opaque:inode]")
+    w.contract(Z + "get_cache_filename", modifies=[], raises={}, returns="str", assumed=True, props=["C11", "C16", "C01"],
+               ensures=["S.safe_sel(result)"],
+               note="dirname(zipfilename)/.cache.pygopherd.zip3.<basename>: a sibling of the archive (path arithmetic over os.path.split/join; assumed safe as a sibling of a safe path)")
+    w.contract(Z + "populate_cache", modifies=["self.dircache", "self.entrycache", "self.invalid_paths"], raises={}, assumed=True, props=["C11", "C16"],
+               note="builds the member index from the archive itself (bounded stand-in r_zip)")
+    for m in ("save_cache", "init_cache"):
+        w.contracts.pop((Z + m, None), None)
+    w.contract(Z + "save_cache", globals=GROOT, requires=CH, modifies=[MROOT], raises={}, returns="bool",
+               loops={0: dict(invariant=["True"], havoc=["db", "key", "value"], types={"db": "dict[str,opaque:inode]"})}, props=["C11", "C16", "C01"],
+               note="the cache is rewritten from scratch (flag 'n'): what a killed or racing writer left on disk is never parsed, and an OSError while writing only means 'not cached'")
+    w.contract(Z + "init_cache", globals=GROOT, requires=CH, modifies=[MROOT, "self.dircache", "self.entrycache", "self.invalid_paths"], raises={"OSError": True},
+               props=["C11", "C16", "C01"],
+               note="an unreadable, truncated or corrupt cache (any exception of shelve.open in read mode) leads to a rebuild from the archive; the only exception that can "
+                    "escape is the OSError of stat()ing the archive itself")
